@@ -33,6 +33,25 @@ impl Tier {
 }
 
 pub const VERIF_DIR: &str = "/verif";
+/// a single generated case normally takes microseconds to milliseconds
+pub const HANG_SECS: u64 = 30;
+
+/// A case did not return. For C06 ("never panics or hangs") that is the property; for every other
+/// property it is reported as inconclusive (exit 2), never as a violation.
+pub fn on_hang(prop: &str, sub: &str, seed: u64, tape: &[u32]) -> ! {
+    let _ = std::fs::create_dir_all(format!("{VERIF_DIR}/replays"));
+    let path = format!("{VERIF_DIR}/replays/{prop}-{sub}-hang-{:016x}.json", hash_str(&format!("{tape:?}")));
+    let body = json!({"property": prop, "subcheck": sub, "seed": seed, "replay": {"tape": tape}, "signature": format!("{prop}/hang"),
+        "message": format!("a generated case did not return within {HANG_SECS} s"), "case": null});
+    let _ = std::fs::write(&path, serde_json::to_string_pretty(&body).unwrap());
+    if prop == "C06" {
+        println!("VIOLATION property={prop} replay={path}");
+        eprintln!("  [{sub}] hang: a generated case did not return within {HANG_SECS} s (replay with a timeout)");
+        std::process::exit(1);
+    }
+    eprintln!("[{prop}] watchdog: a case of {sub} did not return within {HANG_SECS} s; inconclusive (saved {path})");
+    std::process::exit(2);
+}
 pub const WORKER_STACK: usize = 64 << 20;
 
 #[derive(Clone, Debug)]
@@ -113,6 +132,8 @@ pub enum Kind {
     Tape { len: usize, quick: u64, thorough: u64, f: TapeFn },
     /// complete enumeration of a finite indexed domain
     Indexed { n: fn(Tier) -> u64, f: IndexFn, exhaustive: bool },
+    /// a sub-check with its own driver (child processes, schedules); `replay` re-executes a saved case
+    Custom { run: fn(Tier, u64) -> SubReport, replay: fn(&Value) -> CaseResult },
 }
 
 #[derive(Clone)]
@@ -165,11 +186,34 @@ fn run_tape_sub(prop: &str, sub: &SubCheck, seed: u64, cases: u64, len: usize, f
     let merged = Mutex::new(Stats::default());
     let failures: Mutex<Vec<(Fail, Value)>> = Mutex::new(vec![]);
     let stop = AtomicBool::new(false);
+    // watchdog: the case every worker is executing right now
+    let slots: Vec<Mutex<Option<(Instant, Vec<u32>)>>> = (0..threads).map(|_| Mutex::new(None)).collect();
+    let finished = std::sync::atomic::AtomicUsize::new(0);
     std::thread::scope(|sc| {
+        {
+            let slots = &slots;
+            let finished = &finished;
+            let sub_name = sub.name;
+            sc.spawn(move || {
+                while finished.load(Ordering::Relaxed) < threads {
+                    std::thread::sleep(std::time::Duration::from_millis(250));
+                    for s in slots.iter() {
+                        let cur = s.lock().unwrap().clone();
+                        if let Some((since, tape)) = cur {
+                            if since.elapsed().as_secs() >= HANG_SECS {
+                                on_hang(prop, sub_name, seed, &tape);
+                            }
+                        }
+                    }
+                }
+            });
+        }
         for w in 0..threads {
             let merged = &merged;
             let failures = &failures;
             let stop = &stop;
+            let slots = &slots;
+            let finished = &finished;
             let name = sub.name;
             std::thread::Builder::new()
                 .stack_size(WORKER_STACK)
@@ -204,7 +248,10 @@ fn run_tape_sub(prop: &str, sub: &SubCheck, seed: u64, cases: u64, len: usize, f
                                 return Ok(());
                             }
                         }
-                        match guard(|| f(&tape, &mut st)) {
+                        *slots[w].lock().unwrap() = Some((Instant::now(), tape.clone()));
+                        let r = guard(|| f(&tape, &mut st));
+                        *slots[w].lock().unwrap() = None;
+                        match r {
                             Ok(Ok(())) => Ok(()),
                             Ok(Err(fl)) => {
                                 st.frozen = true;
@@ -243,6 +290,7 @@ fn run_tape_sub(prop: &str, sub: &SubCheck, seed: u64, cases: u64, len: usize, f
                     let mut st = stats.into_inner();
                     st.frozen = false;
                     merged.lock().unwrap().merge(st);
+                    finished.fetch_add(1, Ordering::Relaxed);
                 })
                 .expect("spawn worker");
         }
@@ -312,6 +360,12 @@ pub fn run_sub(prop: &str, sub: &SubCheck, tier: Tier, seed: u64) -> SubReport {
             run_tape_sub(prop, sub, seed, cases, len, f)
         }
         Kind::Indexed { n, f, exhaustive } => run_indexed_sub(sub, n(tier), f, exhaustive),
+        Kind::Custom { run, .. } => {
+            let mut r = run(tier, seed);
+            r.name = sub.name.to_string();
+            r.rule = sub.rule.to_string();
+            r
+        }
     }
 }
 
@@ -518,6 +572,7 @@ pub fn replay(subs: &[SubCheck], body: &Value) -> Result<CaseResult, String> {
             let i = desc.get("index").and_then(|x| x.as_u64()).ok_or("no index")?;
             guard(|| f(i, &mut st)).map_err(|p| format!("panic: {p}"))
         }
+        Kind::Custom { replay, .. } => guard(|| replay(desc)).map_err(|p| format!("panic: {p}")),
     }
     .map(Ok)
     .unwrap_or_else(|e| Ok(Err(fail("harness-panic", e, json!(null)))))
